@@ -161,23 +161,62 @@ structure Entry where
   size : Nat
 deriving DecidableEq, Repr
 
+mutual
+/-- the item of a node and everything below it -/
+def entriesNode (names : List Str) : Node → List Entry
+  | .file n sz => [⟨names ++ [n], false, true, sz⟩]
+  | .other n => [⟨names ++ [n], false, false, 0⟩]
+  | .dir n ch => ⟨names ++ [n], true, false, 0⟩ :: entriesList (names ++ [n]) ch
 /-- every item of a tree -/
-def entries : List Str → List Node → List Entry
-  | _, [] => []
-  | names, .file n sz :: rest => ⟨names ++ [n], false, true, sz⟩ :: entries names rest
-  | names, .other n :: rest => ⟨names ++ [n], false, false, 0⟩ :: entries names rest
-  | names, .dir n ch :: rest => ⟨names ++ [n], true, false, 0⟩ :: (entries (names ++ [n]) ch ++ entries names rest)
+def entriesList (names : List Str) : List Node → List Entry
+  | [] => []
+  | c :: cs => entriesNode names c ++ entriesList names cs
+end
+
+/-- every item of a tree -/
+def entries (names : List Str) (l : List Node) : List Entry := entriesList names l
+
+theorem entries_nil (names : List Str) : entries names [] = [] := by
+  simp [entries, entriesList]
+theorem entries_file (names : List Str) (n : Str) (sz : Nat) (rest : List Node) :
+    entries names (.file n sz :: rest) = ⟨names ++ [n], false, true, sz⟩ :: entries names rest := by
+  simp [entries, entriesList, entriesNode]
+theorem entries_other (names : List Str) (n : Str) (rest : List Node) :
+    entries names (.other n :: rest) = ⟨names ++ [n], false, false, 0⟩ :: entries names rest := by
+  simp [entries, entriesList, entriesNode]
+theorem entries_dir (names : List Str) (n : Str) (ch rest : List Node) :
+    entries names (.dir n ch :: rest) =
+      ⟨names ++ [n], true, false, 0⟩ :: (entries (names ++ [n]) ch ++ entries names rest) := by
+  simp [entries, entriesList, entriesNode]
 
 def isFileNode : Node → Bool
   | .file _ _ => true
   | _ => false
 
+mutual
+def filesNode (names : List Str) : Node → List (List Str × Nat)
+  | .file n sz => [(names ++ [n], sz)]
+  | .other _ => []
+  | .dir n ch => filesList (names ++ [n]) ch
+def filesList (names : List Str) : List Node → List (List Str × Nat)
+  | [] => []
+  | c :: cs => filesNode names c ++ filesList names cs
+end
+
 /-- regular files of a tree with their sizes -/
-def files : List Str → List Node → List (List Str × Nat)
-  | _, [] => []
-  | names, .file n sz :: rest => (names ++ [n], sz) :: files names rest
-  | names, .other _ :: rest => files names rest
-  | names, .dir n ch :: rest => files (names ++ [n]) ch ++ files names rest
+def files (names : List Str) (l : List Node) : List (List Str × Nat) := filesList names l
+
+theorem files_nil (names : List Str) : files names [] = [] := by
+  simp [files, filesList]
+theorem files_file (names : List Str) (n : Str) (sz : Nat) (rest : List Node) :
+    files names (.file n sz :: rest) = (names ++ [n], sz) :: files names rest := by
+  simp [files, filesList, filesNode]
+theorem files_other (names : List Str) (n : Str) (rest : List Node) :
+    files names (.other n :: rest) = files names rest := by
+  simp [files, filesList, filesNode]
+theorem files_dir (names : List Str) (n : Str) (ch rest : List Node) :
+    files names (.dir n ch :: rest) = files (names ++ [n]) ch ++ files names rest := by
+  simp [files, filesList, filesNode]
 
 /-- all proper, non-empty prefixes of a names-path -/
 def ancestors (p : List Str) : List (List Str) :=
